@@ -349,6 +349,24 @@ def gen_cut_base(seed, opts=None):
             elif ia['kind'] in ('stream', 'channel') and ia['resp'].get('src'):
                 ia['resp']['pacing'] = 0.002
                 ia['resp']['count'] = max(ia['resp'].get('count', 0), 4)
+    if opts.get('small'):
+        # small enough for every byte offset and every loop iteration to be visited
+        for ia in plan['interactions']:
+            r = ia.get('req', {})
+            if 'dlen' in r:
+                r['dlen'], r['mlen'] = min(r['dlen'], 24), (min(r['mlen'], 16) if r.get('mlen') else r.get('mlen'))
+                if r['dlen'] < 8 and (r.get('mlen') or 0) < 8:
+                    r['dlen'] = 8
+            for sc in (ia.get('resp'), ia.get('pub')):
+                if not sc:
+                    continue
+                if 'lens' in sc:
+                    sc['lens'] = [[min(a, 70), (min(b, 20) if b else b)] for a, b in sc['lens'][:1]]
+                    sc['count'] = min(sc.get('count', 0), 3)
+                if 'dlen' in sc:
+                    sc['dlen'] = min(sc['dlen'], 70)
+                    sc['mlen'] = min(sc['mlen'], 20) if sc.get('mlen') else sc.get('mlen')
+        plan['client']['keepalive_ms'] = 1_000_000
     plan['horizon'] = 8.0
     plan['settle'] = 4.0
     plan['nontrivial'] = True
